@@ -17,6 +17,12 @@
 //!           stream neither finished nor asked to be polled) | (9) poll bound exceeded
 use futures::{channel::oneshot, FutureExt, Stream};
 use reactive_graph::owner::Owner;
+
+/// a root owner with an SSR shared context (Suspense marks incomplete chunks there)
+fn new_owner() -> Owner {
+    use hydration_context::{SharedContext, SsrSharedContext};
+    Owner::new_root(Some(Arc::new(SsrSharedContext::new()) as Arc<dyn SharedContext + Send + Sync>))
+}
 use std::{
     collections::{BTreeMap, VecDeque},
     future::Future,
@@ -79,6 +85,9 @@ enum Node {
     /// 13: `move || res.get().map(|_| child)`: a synchronous read of the resource
     /// (`ArcAsyncDerived`) that loads when future f completes; the child has no futures
     Res(u32, Box<Node>),
+    /// 14: `Suspend::new(async { [local.await;] f.await; [local.await;] child })` where `local`
+    /// is a `LocalResource` (always pending on the server): flags pre / post
+    LocalSuspend { f: u32, pre: bool, post: bool, content: Box<Node> },
 }
 
 fn parse(s: &Sexp) -> Node {
@@ -103,6 +112,12 @@ fn parse(s: &Sexp) -> Node {
         11 => Node::Suspense(Box::new(parse(s.at(1))), Box::new(parse(s.at(2)))),
         12 => Node::Transition(Box::new(parse(s.at(1))), Box::new(parse(s.at(2)))),
         13 => Node::Res(s.at(1).num() as u32, Box::new(parse(s.at(2)))),
+        14 => Node::LocalSuspend {
+            f: s.at(1).num() as u32,
+            pre: s.at(2).num() != 0,
+            post: s.at(3).num() != 0,
+            content: Box::new(parse(s.at(4))),
+        },
         _ => panic!("bad node kind {k}"),
     }
 }
@@ -120,6 +135,10 @@ fn futures_of(n: &Node, out: &mut Vec<u32>) {
             out.push(*f);
             futures_of(c, out)
         }
+        Node::LocalSuspend { f, content, .. } => {
+            out.push(*f);
+            futures_of(content, out)
+        }
         Node::Boundary { f, fallback, content, .. } => {
             out.push(*f);
             futures_of(fallback, out);
@@ -136,6 +155,7 @@ fn futures_of(n: &Node, out: &mut Vec<u32>) {
 fn has_leptos(n: &Node) -> bool {
     match n {
         Node::ErrB(_) | Node::Suspense(..) | Node::Transition(..) | Node::Res(..) => true,
+        Node::LocalSuspend { .. } => true,
         Node::Text(_) | Node::RawSync(_) => false,
         Node::Elem(_, c) | Node::Suspend(_, c) | Node::Append(c) | Node::RawAsync(_, c) => has_leptos(c),
         Node::Tuple(cs) | Node::VecOf(cs) => cs.iter().any(has_leptos),
@@ -149,6 +169,7 @@ fn has_raw(n: &Node) -> bool {
         Node::Text(_) => false,
         Node::RawSync(_) | Node::RawAsync(..) | Node::Boundary { .. } | Node::Append(_) => true,
         Node::ErrB(_) | Node::Suspense(..) | Node::Transition(..) | Node::Res(..) => true,
+        Node::LocalSuspend { .. } => true,
         Node::Elem(_, c) | Node::Suspend(_, c) => has_raw(c),
         Node::Tuple(cs) | Node::VecOf(cs) => cs.iter().any(has_raw),
         Node::Opt(c) => c.as_ref().map(|c| has_raw(c)).unwrap_or(false),
@@ -238,6 +259,24 @@ fn build(n: &Node, rxs: &Rxs) -> AnyView {
             let (c, rxs) = ((**c).clone(), rxs.clone());
             (move || res.get().map(|_| build(&c, &rxs))).into_any()
         }
+        Node::LocalSuspend { f, pre, post, content } => {
+            use leptos::prelude::*;
+            let rx = take_rx(rxs, *f);
+            let c = build(content, rxs);
+            let (pre, post) = (*pre, *post);
+            let local = LocalResource::new(|| async { 42 });
+            Suspend::new(async move {
+                if pre {
+                    let _ = local.await;
+                }
+                let _ = rx.await;
+                if post {
+                    let _ = local.await;
+                }
+                c
+            })
+            .into_any()
+        }
     }
 }
 
@@ -253,6 +292,7 @@ fn res_ids(n: &Node, out: &mut Vec<u32>) {
             out.push(*f);
             res_ids(c, out)
         }
+        Node::LocalSuspend { content, .. } => res_ids(content, out),
         Node::Text(_) | Node::RawSync(_) => {}
         Node::Elem(_, c) | Node::Suspend(_, c) | Node::Append(c) | Node::RawAsync(_, c) | Node::ErrB(c) => {
             res_ids(c, out)
@@ -665,7 +705,7 @@ fn channels(futs: &[u32]) -> (Rxs, BTreeMap<u32, oneshot::Sender<()>>) {
 
 fn reference(tree: &Node, futs: &[u32]) -> (Sexp, Sexp) {
     // ref: everything complete before rendering, in-order stream
-    let owner = Owner::new();
+    let owner = new_owner();
     let r1 = owner.with(|| {
         let (rxs, txs) = channels(futs);
         for (_, tx) in txs {
@@ -698,7 +738,7 @@ fn reference(tree: &Node, futs: &[u32]) -> (Sexp, Sexp) {
     let r2 = if has_raw(tree) {
         Lst(vec![])
     } else {
-        let owner = Owner::new();
+        let owner = new_owner();
         owner.with(|| {
             let (rxs, txs) = channels(futs);
             for (_, tx) in txs {
@@ -738,7 +778,7 @@ fn run_ticks(c: &Sexp) -> Sexp {
     exec::reset();
     RES.with(|r| r.borrow_mut().clear());
 
-    let owner = Owner::new();
+    let owner = new_owner();
     let log = owner.with(|| {
         let (rxs, mut txs) = channels(&futs);
         let count = Arc::new(CountWaker(AtomicUsize::new(0)));
@@ -861,7 +901,7 @@ fn run(c: &Sexp) -> Sexp {
     exec::reset();
     RES.with(|r| r.borrow_mut().clear());
 
-    let owner = Owner::new();
+    let owner = new_owner();
     let log = owner.with(|| {
         let (rxs, mut txs) = channels(&futs);
         for f in &init {
